@@ -801,8 +801,15 @@ func (gs *GossipSubRouter) OnClosedOutboundStream(p peer.ID) {
 		gs.extensions.OnClosedOutboundStream(p)
 	}
 	delete(gs.peers, p)
-	for _, peers := range gs.mesh {
-		delete(peers, p)
+	for topic, peers := range gs.mesh {
+		if _, inMesh := peers[p]; inMesh {
+			delete(peers, p)
+			// the peer leaves the mesh without a PRUNE; release the connection
+			// manager protection that was installed when it was grafted.
+			if gs.tagTracer != nil {
+				gs.tagTracer.untagMeshPeer(p, topic)
+			}
+		}
 	}
 	for _, peers := range gs.fanout {
 		delete(peers, p)
